@@ -856,3 +856,5 @@ func String(e Expr) string {
 	}
 	return "?"
 }
+
+func (f *FuncSpec) GetAttr(k string) string { return f.Attrs[k] }
